@@ -11,7 +11,7 @@ def run(ctx):
     bodies = 0
     tracked_bodies = 0
     roots_lib = 0
-    for label, sc, local in scopes(ctx):
+    for label, sc, local in scopes(ctx, inline=False):
         if label.startswith("catalogue") or label == "lib/default":
             roots_lib = sum(1 for c, r in sc.roots if c.name == "deserr")
             res.analysed["derived_impls"] = sum(1 for c, r in sc.roots if c.name != "deserr")
@@ -29,7 +29,7 @@ def run(ctx):
     import controls
     controls.run(ctx, res, "C01", lambda crate, b, v, bs: lin.analyse(v, {"deserr", "deserr_controls"})[0])
     res.analysed.update({"bodies": bodies, "bodies_with_error_carrying_locals": tracked_bodies, "lib_deserr_impls": roots_lib})
-    res.floor("Deserr impls in the library (default features)", roots_lib, 43)
+    res.floor("Deserr impls in the library (default features)", roots_lib, 40)
     if not getattr(ctx, "degraded", None):
         res.floor("bodies with error-carrying locals", tracked_bodies, 100)
     res.trusted_base = ["rustc nightly MIR construction (mir_built)", "mirfacts extractor (/verif/driver)",
